@@ -4,9 +4,13 @@
    pattern of clock jumps (on time / two slots at once landing exactly on a boundary: the stale slot is still emitted
    / landing after the boundary: slots are skipped), every failure script with at most MaxFail failing requests.
    Goroutine interleavings: Interleave = TRUE explores all of them (small configuration); FALSE runs a spawned
-   goroutine to completion first (they commute with everything: they only read their own snapshot). *)
+   goroutine to completion first (they commute with everything: they only read their own snapshot).
+   Feature flags: feat \in Feats; with a flag on the clock also moves in unit steps (the waiting attester goroutines
+   fire at their deadline or later) and the environment delivers head events for the current and the next slot
+   (i.e. also before the slot's tick) while the run loop is at one of HeadPcs ("idle": between ticks, "sched": after
+   the tick and before scheduleSlot did anything, "cur"/"loop"/"nxt": in the middle of scheduleSlot). *)
 EXTENDS Scheduler
-CONSTANTS MaxTime, MaxFail, Interleave, MaxJump, BVariants, AttOffs, ProMenu, SyncMenu, Starts
+CONSTANTS MaxTime, MaxFail, Interleave, MaxJump, BVariants, AttOffs, ProMenu, SyncMenu, Starts, Feats, HeadPcs
 VARIABLE nfail
 mcvars == <<vars, nfail>>
 NE == 3
@@ -29,10 +33,10 @@ SyncOf(k) == CASE k = 0 -> {}
                [] k = 2 -> {Syn("a", 1), Syn("b", 1), Syn("b", 2), Syn("f", 1), Syn("a", 0)}
 MCTruths == {[S |-> 3, vals |-> ValsOf(bv), att |-> AttOf(oa, ob), pro |-> ProOf(p), sync |-> SyncOf(s)]
                : bv \in BVariants, oa \in AttOffs, ob \in AttOffs, p \in ProMenu, s \in SyncMenu}
-MCInit == /\ truth \in MCTruths /\ now \in Starts /\ Init0 /\ nfail = 0
+MCInit == /\ truth \in MCTruths /\ now \in Starts /\ Init0 /\ nfail = 0 /\ feat \in Feats
 
-MinId == CHOOSE x \in {g.id : g \in gor} : \A y \in {g.id : g \in gor} : x <= y
-GorStep == \E g \in gor : /\ (Interleave \/ g.id = MinId)
+MinId == CHOOSE x \in {g.id : g \in ReadyGor} : \A y \in {g.id : g \in ReadyGor} : x <= y
+GorStep == \E g \in ReadyGor : /\ (Interleave \/ g.id = MinId)
                           /\ (SlotSub(g) \/ Delay(g, CodedDeadline(g)) \/ Fire(g, g.defs))
 RunStep == \/ Tick(EmitSlot) /\ UNCHANGED nfail
            \/ SchedSlot /\ UNCHANGED nfail
@@ -41,9 +45,14 @@ RunStep == \/ Tick(EmitSlot) /\ UNCHANGED nfail
                                   /\ \/ CallVals(ok, ValsResp(now))
                                      \/ \E k \in {"att", "pro", "sync"} : CallDuties(k, ok, FullResp(k, res.ep, res.vs))
 NextB == (CurSlot(now) + 1) * SlotDur
-AdvTargets == UNION {{NextB + j * SlotDur, NextB + j * SlotDur + 1} : j \in 0..(MaxJump - 1)} \ {NextB + 1}
+AdvTargets == (UNION {{NextB + j * SlotDur, NextB + j * SlotDur + 1} : j \in 0..(MaxJump - 1)} \ {NextB + 1})
+              \cup (IF FeatOn THEN {now + 1} ELSE {})
+\* head events that do something (the others are stuttering steps)
+HeadStep == /\ pc \in HeadPcs /\ (Interleave \/ ReadyGor = {})
+            /\ \E n \in {CurSlot(now), CurSlot(now) + 1} : CanFetch(n) /\ HeadEvent(n, TRUE)
 MCNext == \/ GorStep /\ UNCHANGED nfail
-          \/ (Interleave \/ gor = {}) /\ RunStep
+          \/ (Interleave \/ ReadyGor = {}) /\ RunStep
+          \/ HeadStep /\ UNCHANGED nfail
           \/ \E to \in AdvTargets : to <= MaxTime /\ Advance(to) /\ UNCHANGED nfail
 MCSpec == MCInit /\ [][MCNext]_mcvars
 \* the truths of the menu are sane
